@@ -227,7 +227,7 @@ pub const FIXED_STYLE_INTS: usize = 72;
 
 /// 72 integers + the four track lists (children are encoded with empty lists: their own templates are invisible to the parent);
 /// decoded by coq/Model/GridAlgRun.v `dec_style`
-fn enc_style(s: &Style, with_tracks: bool, out: &mut Vec<i64>) {
+pub fn enc_style(s: &Style, with_tracks: bool, out: &mut Vec<i64>) {
     let n0 = out.len();
     out.push(match s.display {
         Display::Block => 0,
